@@ -197,6 +197,33 @@ EvalCond(c, ids, doc) ==
     [] c.t = "cmp" -> CmpCond(c, doc)
 
 LangEval(src, doc) == EvalCond(src.cond, src.ids, doc)
+
+-----------------------------------------------------------------------------
+(* Definite(src, doc): every ATOMIC predicate of the rule has a pinned result that is true or    *)
+(* false on this document - nothing is missing, nothing is left open.  On such a document the   *)
+(* three-valued tables collapse to two-valued logic, so the order of operands, double negation  *)
+(* and regrouping cannot matter.  Used to scope the known findings about operand order.         *)
+RECURSIVE MapAtoms(_, _), ValAtoms(_, _, _, _)
+ValAtoms(v, f, cast, obj) ==
+  IF v.t = "map"
+  THEN LET fv == Find(obj, f) IN
+       IF IsNone(fv) THEN {{"M"}}
+       ELSE IF fv.t = "O" THEN MapAtoms(v.es, fv)
+       ELSE IF fv.t = "A" /\ \A i \in DOMAIN fv.vs : fv.vs[i].t = "O"
+            THEN UNION {MapAtoms(v.es, fv.vs[i]) : i \in DOMAIN fv.vs} \cup {{"F"}}
+       ELSE {FM}
+  ELSE {EvalVal(v, f, cast, obj)}
+EntryAtoms(e, obj) == UNION {ValAtoms(Members(e)[i], e.f, CastOf(e.m), obj) : i \in DOMAIN Members(e)}
+MapAtoms(es, obj) == UNION {EntryAtoms(es[i], obj) : i \in DOMAIN es}
+BodyAtoms(body, doc) == IF body.t = "map" THEN MapAtoms(body.es, doc)
+                        ELSE UNION {MapAtoms(body.ms[i].es, doc) : i \in DOMAIN body.ms}
+RECURSIVE CondAtoms(_, _, _)
+CondAtoms(c, ids, doc) ==
+  CASE c.t \in {"id", "all", "of"} -> BodyAtoms(Lookup(ids, c.n), doc)
+    [] c.t \in {"and", "or"} -> CondAtoms(c.l, ids, doc) \cup CondAtoms(c.r, ids, doc)
+    [] c.t \in {"not", "par"} -> CondAtoms(c.e, ids, doc)
+    [] c.t = "cmp" -> {CmpCond(c, doc)}
+Definite(src, doc) == \A r \in CondAtoms(src.cond, src.ids, doc) : r = {"T"} \/ r = {"F"}
 VerdictSet(S) == {Verdict(r) : r \in S}
 LangVerdicts(src, doc) == VerdictSet(LangEval(src, doc))
 
